@@ -632,6 +632,7 @@ def _b1_overhead(ctx: Context, wf, wcfg, wn, fs_term) -> None:
                 t = T.of(wcfg, n, c)
                 if is_enc(t):
                     enc_nodes.append(n)
+                    _seal_shape(ctx, R, wf, n, c, "encrypt")
                 else:
                     ck.violated(R, f"{ctx.fkey(wf)}:encrypt-shape",
                                 f"_write_pdu: `{_u(c)[:70]}` = {show(t, 120)} is not <the key tested for the overhead>.encrypt(<one fragment of encode_pdu>) - "
@@ -670,6 +671,33 @@ def _b1_overhead(ctx: Context, wf, wcfg, wn, fs_term) -> None:
             continue
         ctx.must_pass(R, wcfg, n, "key.encrypt(fragment) [or no key]", gate, start=heads[0].id,
                       desc="_write_pdu: with a key every fragment reaches the write only through its own encrypt call")
+
+
+def _seal_shape(ctx: Context, rule: str, caller, node, call: ast.Call, method: str) -> None:
+    """The key wrapper called at ``call`` returns exactly one AEAD ``method`` of its argument: nothing appended, nothing cut."""
+    ck = ctx.ck
+    T = ctx.terms
+    cal = [q for q in ctx.callee_names(caller, call) if q in ctx.prog.functions]
+    if len(cal) != 1:
+        ck.unknown(rule, f"{caller.name}: `{_u(call)[:60]}` does not resolve to one package function ({cal})", ctx.loc(caller, node))
+        return
+    g = ctx.prog.functions[cal[0]]
+    gcfg = ctx.cfg(g.qualname)
+    params = g.pos_params[1:] if g.cls is not None else g.pos_params
+    rets = [n for n in gcfg.nodes if n.kind == "return"]
+    if len(rets) != 1 or len(params) != 1 or not rets[0].exprs:
+        ck.unknown(rule, f"{g.qualname}: expected one data parameter and one return", g.loc())
+        return
+    t = T.of(gcfg, rets[0], rets[0].exprs[0])
+    P = ("param", params[0])
+    ok = t[0] == "call" and t[1][0] == "attr" and t[1][2] == method and sum(1 for a in t[2] if a == P) == 1 and not any(contains(a, lambda s: s == P) for a in t[2] if a != P)
+    shape = t[0] == "call" or t[0] == "add" or contains(t, lambda s: s == P)
+    if not ok and not shape:
+        ck.unknown(rule, f"{g.qualname}: returns {show(t, 100)} - not recognised", ctx.loc(g, rets[0]))
+        return
+    what = "sealed fragment = AEAD(fragment): plaintext + one tag" if method == "encrypt" else "opened fragment = AEAD-open(fragment)"
+    ck.check(rule, ok, f"{g.qualname.split('.', 1)[1]}: returns exactly one `.{method}` of its argument ({what})", f"{ctx.fkey(g)}:seal-shape",
+             f"{g.qualname}: returns {show(t, 120)}, not a single .{method}(...) of the fragment - the per-fragment overhead is no longer exactly the tag", ctx.loc(g, rets[0]))
 
 
 def _list_feeding(ctx: Context, cfg, node, expr):
@@ -911,9 +939,14 @@ def _ble_layout(ctx: Context, report: bool):
                     ck.check(R, _raises_only(gcfg, e), "decode_pdu_continuation: a fragment without the continuation flag can only raise",
                              f"{ctx.fkey(g)}:flag-reject-falls-through", "decode_pdu_continuation: with the flag missing a normal exit is reachable",
                              ctx.loc(g, n), gcfg.render_path(gcfg.find_path(e[1], gcfg.exit.id) or []))
-        extra = f" (control is tested with mask(s) {[hex(x) for x in seen_masks]})" if seen_masks and not gate else ""
-        ctx.must_pass(R, gcfg, gcfg.exit, f"continuation-flag test [control & 0x80 set]{extra}", gate,
-                      desc="decode_pdu_continuation: every normal exit passes `control & 0x80` on its set outcome")
+        if seen_masks and not gate:
+            ck.violated(R, f"{ctx.fkey(g)}:flag-mask",
+                        f"decode_pdu_continuation: the control byte is tested with mask(s) {[hex(x) for x in seen_masks]}, the continuation flag is bit 7 (0x80): "
+                        "fragments without the flag are accepted / valid continuations rejected", g.loc(), None,
+                        "decode_pdu_continuation: every normal exit passes `control & 0x80` on its set outcome")
+        else:
+            ctx.must_pass(R, gcfg, gcfg.exit, "continuation-flag test [control & 0x80 set]", gate,
+                          desc="decode_pdu_continuation: every normal exit passes `control & 0x80` on its set outcome")
         if exp2 is None:
             ctx.must_pass(R, gcfg, gcfg.exit, "tid test [received tid == expected tid]", [],
                           desc="decode_pdu_continuation: every normal exit passes the transaction-id test on its equal outcome")
@@ -1051,6 +1084,7 @@ def _g2(ctx: Context) -> None:
                     t = T.of(cfg, m, cc)
                     if len(t[2]) == 1 and t[2][0][0] == "await" and t[2][0][1][0] == "call" and t[2][0][1][4] in src_sites:
                         dec_nodes.append(m)
+                        _seal_shape(ctx, R, rf, m, cc, "decrypt")
                         keys.add(strip_sites(t[1][1]))
         gate = []
         for m in dec_nodes:
@@ -1747,17 +1781,12 @@ def _await_call(cfg, T, node, expr):
 def run_thorough(ctx: Context) -> None:
     """Whole-package sweep: every struct unpack whose buffer is a slice must read exactly calcsize(format) bytes."""
     ck = ctx.ck
-    T = ctx.terms
     R = "C17.G1"
     if not ck.rule(R, "BLE decoders reject a wrong tid / missing continuation flag; unpack widths equal the slices"):
         return
     n_sliced = n_whole = n_open = 0
     for g in ctx.prog.package_functions():
         if isinstance(g.node, ast.Lambda) or g.module.name in EXCLUDED_MODULES:
-            continue
-        if not any(isinstance(x, ast.Call) and (("unpack" in (x.func.attr if isinstance(x.func, ast.Attribute) else "").lower())
-                                               or ("unpack" in (x.func.id if isinstance(x.func, ast.Name) else "").lower()))
-                   for x in ast.walk(g.node)):
             continue
         cfg = ctx.cfg(g.qualname)
         for s in _unpack_sites(ctx, cfg):
@@ -1804,8 +1833,9 @@ TWIN_FILES = [
     "aiohomekit/controller/ble/bleak.py",
     "aiohomekit/controller/coap/pdu.py",
     "aiohomekit/controller/coap/connection.py",
+    "aiohomekit/controller/ble/key.py",
 ]
-_P, _C, _B, _CP, _CC = TWIN_FILES
+_P, _C, _B, _CP, _CC, _K = TWIN_FILES
 VARIANTS = [
     # ---- Appendix A
     {"name": "first fragment subtracts 5 instead of 7", "file": _P, "old": "next_size = fragment_size - 7", "new": "next_size = fragment_size - 5", "expect": "C17.B1"},
@@ -1831,6 +1861,8 @@ VARIANTS = [
     {"name": "overhead subtracted when the key is absent", "file": _C, "old": "KEY_OVERHEAD_SIZE if encryption_key else 0", "new": "0 if encryption_key else KEY_OVERHEAD_SIZE", "expect": "C17.B1"},
     {"name": "overhead no longer subtracted", "file": _B, "old": "        fragment_size -= additional_overhead_size", "new": "        pass", "expect": "C17.B1"},
     {"name": "fragments written unencrypted", "file": _C, "old": "            data = encryption_key.encrypt(bytes(data))\n", "new": "            encryption_key.encrypt(bytes(data))\n", "expect": "C17.B1"},
+    {"name": "sealed fragment gets a trailing byte", "file": _K, "old": "data = self.key.encrypt(b\"\", PACK_NONCE(self.counter), data)",
+     "new": "data = self.key.encrypt(b\"\", PACK_NONCE(self.counter), data) + b\"\\x00\"", "expect": "C17.B1"},
     {"name": "offset advances by slice width - 1", "file": _P, "old": "range(0, len(data), next_size)", "new": "range(0, len(data), next_size - 1)", "expect": "C17.B1"},
     {"name": "remainder skips one byte", "file": _P, "old": "    data = data[next_size:]", "new": "    data = data[next_size + 1 :]", "expect": "C17.B1"},
     {"name": "continuation subtracts 1 instead of 2", "file": _P, "old": "next_size = fragment_size - 2", "new": "next_size = fragment_size - 1", "expect": "C17.B1"},
